@@ -116,7 +116,7 @@ def gen_module(rng, n, names, ctx_choice, penv, pc, pu, focus):
             m["download"] = dict(src, **({"patches": ["000%d.patch" % k for k in range(rng.randint(1, 2))]} if pick(rng, 0.3) else {}),
                                  **({"dldir": "ext/" + n} if pick(rng, 0.2) else {}))
         elif pick(rng, 0.04 if focus == "build" else 0.01):
-            m["srcdir"] = "${build-dir}/dl/./%s/sub" % rng.choice(names)                # sources inside another module's download
+            m["srcdir"] = rng.choice(["${build-dir}/dl/./%s/sub", "${build-dir}/dl/%s/sub", "build/dl/%s"]) % rng.choice(names)   # sources inside another module's download
     env = {}
     for scope in ("local", "export", "global"):
         e = rand_env(rng, penv, pool=VARS)
